@@ -335,6 +335,8 @@ class OscArgsMatcher(AbstractMessageMatcher):
 
     def __call__(self, msg, time, addr, recv_port):
         args = msg[1:]
+        if len(args) < len(self.arg_template):
+            return
         for i, item in enumerate(self.arg_template):
             if callable(item):
                 if not item(args[i]):
